@@ -119,6 +119,16 @@ def gen_method(r, cfg, spec=None, N=None):
             m["intg"] = pick(r, ["collocation", "idas"])  # explicit schemes cannot carry algebraic variables
     if r.random() < cfg.get("p_grid", 0.5):
         m["grid"] = gen_grid(r, cfg)
+    if r.random() < cfg.get("p_interior", 0.0):
+        # a method that never evaluates the model at the right end of a control interval, on a grid with closed-form
+        # node times: there a per-interval parameter can be compared with a piecewise constant function of time (C09)
+        if cls == "DirectCollocation":
+            m["scheme"] = "legendre"
+        elif not has_alg:
+            m["intg"] = "expl_euler"
+        g = m.get("grid") or {}
+        if g.get("cls") in ("Free", "DenseEdges") or g.get("localize_T") or g.get("localize_t0"):
+            m.pop("grid")
     return m
 
 
@@ -136,6 +146,8 @@ def gen_solver(r, cfg):
     o = {"print_time": False, "print_header": False, "print_iteration": False, "print_status": False,
          "qpsol": "qrqp", "qpsol_options": {"print_iter": False, "print_header": False, "print_info": False, "error_on_fail": False}}
     o["max_iter"] = pick(r, [0, 1, 2])
+    # (the active-set QP solver is capped as well: on a degenerate QP its default of 1000 iterations took minutes)
+    o["qpsol_options"]["max_iter"] = 60
     return ["sqpmethod", o]
 
 
@@ -191,6 +203,8 @@ def guess_targets(spec):
     """[(target, sym-or-None)] that may receive an initial guess"""
     out = []
     for s in spec.syms:
+        if s.get("chain"):
+            continue  # its guess is a link of a chain of guesses that build on each other: never replaced on its own
         if s["kind"] in ("state", "hstate", "control", "variable", "algebraic"):
             out.append((s["name"], s))
     if spec.T[0] == "free":
@@ -462,7 +476,7 @@ def gen_constraints(r, sp, cfg, n, first=False):
         if cvar:
             kinds.append((1, "cvar"))
         if cpar:
-            kinds.append((1, "pathp"))
+            kinds.append((3, "pathp"))
         k = "bnd0" if (first and i == 0) else wpick(r, kinds)
         rhs = pick(r, gpar) if (gpar and r.random() < 0.4) else ["c", rnum(r)]
         d = {"op": "subject_to"}
@@ -496,8 +510,11 @@ def gen_constraints(r, sp, cfg, n, first=False):
                 d["include_first"] = False
             if r.random() < 0.3:
                 d["include_last"] = False
+            elif r.random() < 0.35:
+                d["include_last"] = "auto"  # documented third value; what it means is up to rockit, but it must mean the
+                #                             same for a parameter and for the number written in its place
             dc = (sp.method or {}).get("cls", cfg.get("_cls_hint")) == "DirectCollocation"
-            if k in ("pathx",) and r.random() < (0.5 if dc else 0.3):
+            if k in ("pathx", "pathp") and r.random() < (0.5 if dc else 0.3):
                 d["grid"] = pick(r, ["integrator", "control", "integrator_roots"] + (["integrator_roots"] * 2 if dc else []))
                 if d["grid"] == "integrator_roots":
                     d.pop("include_first", None)
